@@ -7,6 +7,7 @@ import FeedVerif.Model.DateDriver
 import FeedVerif.Model.EncDriver
 import FeedVerif.Model.DoctypeDriver
 import FeedVerif.Model.SanDriver
+import FeedVerif.Model.MixinDriver
 /-!
 Model driver: one operation per input line `<model> <op> <fields…>`, one canonical output line per
 operation.  Run with `lake env lean --run Main.lean`.
@@ -17,6 +18,7 @@ structure DState where
   dict : Dict.Store := []
   base : Base.St := ⟨"", none, [], []⟩
   san : San.DSt := {}
+  mix : Mixin.DSt := {}
 
 def stepLine (st : DState) (line : String) : DState × String :=
   match (line.trimAscii.toString.splitOn " ").filter (· ≠ "") with
@@ -27,6 +29,7 @@ def stepLine (st : DState) (line : String) : DState × String :=
   | "date" :: rest => (st, Date.driverStep rest)
   | "enc" :: rest => (st, Enc.driverStep rest)
   | "doctype" :: rest => (st, Doctype.driverStep rest)
+  | "mix" :: rest => let (s, o) := Mixin.driverStep st.mix rest; ({ st with mix := s }, o)
   | "res" :: rest => (st, San.resDriverStep rest)
   | "san" :: rest => let (s, o) := San.driverStep st.san rest; ({ st with san := s }, o)
   | "base" :: rest => let (s, o) := Base.driverStep st.base rest; ({ st with base := s }, o)
